@@ -14,7 +14,7 @@ From Coq Require Import ZArith List Bool String.
 From V Require Import Base.Int Base.IO.
 From V Require Import Model.TzParser Model.TzRule Model.TzLookup.
 From V Require Model.Date Model.Time Model.DateTime Model.C16.
-From V Require Model.Scan Model.Show Model.FromStr Model.C02.
+From V Require Model.Scan Model.Show Model.FromStr Model.C02 Model.TimeDelta.
 Import ListNotations.
 Open Scope Z_scope.
 
@@ -184,6 +184,37 @@ Definition op_conv (z : timezone) (n : DateTime.ndt) : val :=
      let* l6 := local_from_systime z (x <? 0) (Z.abs x) 0 in let* p6 := pair_of l6 in
      Val (VTup [p1; p2; p3; p4; p5; p6])).
 
+(** ** DateTime<Local> += / -= TimeDelta and core::time::Duration (src/datetime/mod.rs), op lz.asg *)
+(* impl AddAssign<TimeDelta> for DateTime<Tz>:
+     let datetime = self.datetime.checked_add_signed(rhs).expect("`DateTime + TimeDelta` overflowed");
+     let tz = self.timezone();  *self = tz.from_utc_datetime(&datetime);
+   for Tz = Local the zone is resolved again at the new instant *)
+Definition local_add_assign (z : timezone) (a : DateTime.dtz) (rhs : TimeDelta.td) : R DateTime.dtz :=
+  let* datetime := unwrap_r (DateTime.ndt_checked_add_signed (DateTime.dz_utc a) rhs) in
+  from_utc_datetime z datetime.
+(* impl SubAssign<TimeDelta> for DateTime<Tz>: the same with checked_sub_signed *)
+Definition local_sub_assign (z : timezone) (a : DateTime.dtz) (rhs : TimeDelta.td) : R DateTime.dtz :=
+  let* datetime := unwrap_r (DateTime.ndt_checked_sub_signed (DateTime.dz_utc a) rhs) in
+  from_utc_datetime z datetime.
+(* impl AddAssign<Duration> / SubAssign<Duration>:  let rhs = TimeDelta::from_std(rhs).expect(..); *self += rhs *)
+Definition local_add_assign_std (z : timezone) (a : DateTime.dtz) (dsecs dnanos : Z) : R DateTime.dtz :=
+  let* rhs := unwrap (TimeDelta.from_std dsecs dnanos) in local_add_assign z a rhs.
+Definition local_sub_assign_std (z : timezone) (a : DateTime.dtz) (dsecs dnanos : Z) : R DateTime.dtz :=
+  let* rhs := unwrap (TimeDelta.from_std dsecs dnanos) in local_sub_assign z a rhs.
+
+(* the observation: Local.from_utc_datetime(&n), then the four assignments with TimeDelta::seconds(d) /
+   Duration::from_secs(|d|), each under its own catch_unwind: (offset, timestamp) or PANIC *)
+Definition ASG_MAX := 10000000000000.
+Definition asg_out (r : R DateTime.dtz) : val := val_of_R (fun v => v) (let* a := r in pair_of a).
+Definition op_asg (d : Z) (z : timezone) (n : DateTime.ndt) : val :=
+  match from_utc_datetime z n with
+  | Val a =>
+      VTup [asg_out (local_add_assign z a (TimeDelta.mk_td d 0)); asg_out (local_sub_assign z a (TimeDelta.mk_td d 0));
+            asg_out (local_add_assign_std z a (Z.abs d) 0); asg_out (local_sub_assign_std z a (Z.abs d) 0)]
+  | Panic => VPanic
+  | OutOfFuel => VFuel
+  end.
+
 Definition batch (src xs : val) (f : timezone -> DateTime.ndt -> val) : val :=
   match zone_of_src src, arg_list xs with
   | Some z, Some ns =>
@@ -228,7 +259,10 @@ Definition run (op : bytes) (args : list val) : val :=
             else VBad
         | _, _ => VBad
         end
+      else if op_is op "lz.asg" then
+        if (- ASG_MAX <=? dir) && (dir <=? ASG_MAX)
+        then match src with VStr _ => batch src xs (op_asg dir) | _ => VBad end else VBad
       else VErr B"NOOP"
   | _ => if op_is op "lz.at" || op_is op "lz.uat" || op_is op "lz.loc" || op_is op "lz.uloc" || op_is op "lz.sel" || op_is op "lz.usel"
-            || op_is op "lz.rt" || op_is op "lz.urt" || op_is op "lz.env" || op_is op "lz.conv" then VBad else VErr B"NOOP"
+            || op_is op "lz.rt" || op_is op "lz.urt" || op_is op "lz.env" || op_is op "lz.conv" || op_is op "lz.asg" then VBad else VErr B"NOOP"
   end.
